@@ -90,7 +90,7 @@ typedef struct of_ldpc_staircase_cb
 	
 	void**		repair_symbols_values;
 	void**		tmp_tab_symbols;
-	UINT16		nb_tmp_symbols;
+	UINT32		nb_tmp_symbols;
 #endif /* } OF_USE_DECODER */
 
 	void 		**encoding_symbols_tab;
